@@ -453,6 +453,7 @@ impl C04 {
                     let expected = &ext[k];
                     match rep.get(k) {
                         None => mon.violation("C04.instance-dependent-not-reported", format!("replaced variable {k} is absent from the reported state\nstate={st:?}\n{}", ctx(&inst))),
+                        Some(_) if dropping_matters => {}
                         Some(v) => {
                             // exact verdict only if the function the SDK itself evaluates for k (its stored dependency,
                             // possibly the composition of several replacements) is exact at this state as well
